@@ -1,7 +1,10 @@
 SPECIFICATION Spec
 CONSTANTS
-  StopRule = "minusDelay"
+  StopRule = "plusDelay"
   ChunkRule = "delayAware"
+  ReduceRule = "loop"
+  KeyRule = "single"
+  AssignRule = "strict"
   SeedSpace <- SeedsQuick
   SizeSpace <- SizeTriplesQ
-INVARIANT PairsOk
+INVARIANT KeysOk
